@@ -84,7 +84,8 @@ def lean_call(c, env):
     return {
         "n": c["n"] if k in "PSBQX" else -1,
         "strict": k in "SQ",
-        "timeout": c["t"] if k in "TBQX" else None,
+        # the model's Call carries an integer: a timeout of the wrong type is the model's "rejected" class (<= 0)
+        "timeout": (c["t"] if type(c["t"]) is int else -1) if k in "TBQX" else None,
         "env": env,
     }
 
@@ -314,7 +315,7 @@ def _rand_call(rng, kinds, serial, durs_min):
             c["t"] = 1 if c["expire"] else 60
     if k == "X":
         c["n"] = 1
-        c["t"] = rng.choice([0, -1])
+        c["t"] = rng.choice([0, -1, 1.5, True])  # both branches of _check_timeout: not an int / not positive
     return c
 
 
